@@ -1,6 +1,7 @@
 import PromProofs.QuantileList
 import PromProofs.QuantileFraction
 import PromProofs.QuantileSort
+import PromProofs.QuantileNativeMono
 /-
   C32 — Histogram query functions agree with the histograms they describe.
 
@@ -238,19 +239,144 @@ def ConsistentHist (h : NHist XR) : Prop :=
   (∀ b ∈ h.fwd, ∃ l u c, b.lower = .fin l ∧ b.upper = .fin u ∧ b.count = .fin c ∧ l ≤ u ∧ 0 ≤ c) ∧
   h.fwd.Pairwise (fun a b => XR.le a.upper b.lower = true)
 
-/-- NOT PROVED YET (covered by the judge on Go's outputs only): native quantiles are monotone in q. -/
+theorem ConsistentHist.rhist {h : NHist XR} (C : ConsistentHist h) :
+    ∃ L N, RHist h L N ∧ L.Pairwise (fun a b => a.u ≤ b.l) :=
+  rhist_of h C.1 C.2.1 C.2.2.1 C.2.2.2.1 C.2.2.2.2
+
+theorem evalHQ_eq_evalR (interp : XR → XR → XR → XR) (r : HQRes XR) : evalHQ interp r = evalR interp r := by
+  cases r <;> rfl
+
+/-- the statement as first written (NaN admitted) -/
 def histQuantile_mono_full : Prop :=
   ∀ (interp : XR → XR → XR → XR) (h : NHist XR), GoodInterp interp → ConsistentHist h →
     ∀ q1 q2 : Rat, 0 ≤ q1 → q1 ≤ q2 → q2 ≤ 1 →
       XR.leOrNaN (evalHQ interp (histogramQuantile (.fin q1) h)) (evalHQ interp (histogramQuantile (.fin q2) h))
 
-/-- NOT PROVED YET: the native quantile lies within the (adjusted) bounds of a bucket of the histogram. -/
+/-- Native quantiles never decrease with q — and are never NaN: for every consistent histogram (Sum not NaN:
+    F-C32-1; all bounds finite: F-C32-3) and every monotone in-bucket interpolant, at the bucket-iterator
+    level, ACROSS the switch from forward to reverse iteration at q = 1/2. -/
+theorem histQuantile_mono (interp : XR → XR → XR → XR) (h : NHist XR) (G : GoodInterp interp) (C : ConsistentHist h)
+    (q1 q2 : Rat) (h0 : 0 ≤ q1) (h12 : q1 ≤ q2) (h1 : q2 ≤ 1) :
+    ∃ v1 v2, evalHQ interp (histogramQuantile (.fin q1) h) = .fin v1 ∧
+      evalHQ interp (histogramQuantile (.fin q2) h) = .fin v2 ∧ v1 ≤ v2 := by
+  obtain ⟨L, N, R, PW⟩ := C.rhist
+  simp only [evalHQ_eq_evalR]
+  exact hq_mono_core interp G R PW q1 q2 h0 h12 h1
+
+theorem histQuantile_mono_full_holds : histQuantile_mono_full := by
+  intro interp h G C q1 q2 h0 h12 h1
+  obtain ⟨v1, v2, e1, e2, hle⟩ := histQuantile_mono interp h G C q1 q2 h0 h12 h1
+  right; right
+  rw [e1, e2, XR.le_fin]
+  simpa using hle
+
+/-- the statement as first written (some bucket of the histogram) -/
 def histQuantile_in_rank_bucket_full : Prop :=
   ∀ (interp : XR → XR → XR → XR) (h : NHist XR), GoodInterp interp → ConsistentHist h → h.custom = false →
     ∀ q : Rat, 0 ≤ q → q ≤ 1 →
       ∃ b ∈ h.fwd, ∃ v, evalHQ interp (histogramQuantile (.fin q) h) = .fin v ∧
         XR.le (if XR.lt b.lower (.fin 0) && XR.lt (.fin 0) b.upper && h.nNeg = 0 && h.nPos > 0 then .fin 0 else b.lower) (.fin v) = true ∧
         XR.le (.fin v) (if XR.lt b.lower (.fin 0) && XR.lt (.fin 0) b.upper && h.nPos = 0 && h.nNeg > 0 then .fin 0 else b.upper) = true
+
+/-- The native quantile lies within the (adjusted) bounds of THE RANK BUCKET: the histogram's buckets split as
+    `pre ++ b :: rem` where `b` is non-empty and the cumulative count `S` of `pre` satisfies
+    `S ≤ q·Count ≤ S + b.count`; the result is a number between `b`'s bounds (the zero bucket cut at 0 when the
+    histogram has no negative resp. no positive buckets).  Custom-bucket histograms included. -/
+theorem histQuantile_in_rank_bucket (interp : XR → XR → XR → XR) (h : NHist XR) (G : GoodInterp interp)
+    (C : ConsistentHist h) (q : Rat) (h0 : 0 ≤ q) (h1 : q ≤ 1) :
+    ∃ pre b rem S c N, h.fwd = pre ++ b :: rem ∧ h.count = .fin N ∧ sumCounts (.fin 0) pre = .fin S ∧ b.count = .fin c ∧
+      0 < c ∧ S ≤ q * N ∧ q * N ≤ S + c ∧
+      ∃ v, evalHQ interp (histogramQuantile (.fin q) h) = .fin v ∧
+        XR.le (if !h.custom && XR.lt b.lower (.fin 0) && XR.lt (.fin 0) b.upper && h.nNeg = 0 && h.nPos > 0 then .fin 0 else b.lower) (.fin v) = true ∧
+        XR.le (.fin v) (if !h.custom && XR.lt b.lower (.fin 0) && XR.lt (.fin 0) b.upper && h.nPos = 0 && h.nNeg > 0 then .fin 0 else b.upper) = true := by
+  obtain ⟨L, N, R, _⟩ := C.rhist
+  obtain ⟨pre, b, rem, P, v, ev, lo, hi⟩ := hq_in_bucket_core interp G R q h0 h1
+  refine ⟨pre.map RB.toN, b.toN, rem.map RB.toN, 0 + total pre, b.c, N, ?_, R.count, sumCounts_map pre 0, rfl, P.cpos,
+    by have := P.lo; grind, by have := P.hi; grind, v, by rw [evalHQ_eq_evalR]; exact ev, ?_, ?_⟩
+  · rw [R.fwd, P.split]; simp
+  · unfold adjLo at lo
+    simp only [RB.toN, XR.lt_fin]
+    split at lo <;> rename_i hc
+    · have : (!h.custom && decide (b.l < 0) && decide (0 < b.u) && decide (h.nNeg = 0) && decide (h.nPos > 0)) = true := by
+        simpa [Bool.and_assoc] using hc
+      simp only [this, ↓reduceIte, XR.le_fin]; simpa using lo
+    · have : ¬ (!h.custom && decide (b.l < 0) && decide (0 < b.u) && decide (h.nNeg = 0) && decide (h.nPos > 0)) = true := by
+        simpa [Bool.and_assoc] using hc
+      simp only [this, ↓reduceIte, XR.le_fin]; simpa using lo
+  · unfold adjHi at hi
+    simp only [RB.toN, XR.lt_fin]
+    by_cases hc : (!h.custom && decide (b.l < 0) && decide (0 < b.u) && decide (h.nPos = 0) && decide (h.nNeg > 0)) = true
+    · have hc' : (!h.custom && decide (b.l < 0) && decide (0 < b.u) && !(decide (h.nNeg = 0) && decide (h.nPos > 0)) &&
+          (decide (h.nPos = 0) && decide (h.nNeg > 0))) = true := by
+        simp only [Bool.and_eq_true, decide_eq_true_eq, Bool.not_eq_true', Bool.and_eq_false_iff, decide_eq_false_iff_not] at hc ⊢
+        refine ⟨⟨⟨⟨hc.1.1.1.1, hc.1.1.1.2⟩, hc.1.1.2⟩, ?_⟩, hc.1.2, hc.2⟩
+        right; omega
+      rw [if_pos hc'] at hi
+      simp only [hc, ↓reduceIte, XR.le_fin]; simpa using hi
+    · have hc' : ¬ (!h.custom && decide (b.l < 0) && decide (0 < b.u) && !(decide (h.nNeg = 0) && decide (h.nPos > 0)) &&
+          (decide (h.nPos = 0) && decide (h.nNeg > 0))) = true := by
+        intro hh
+        apply hc
+        simp only [Bool.and_eq_true, decide_eq_true_eq, Bool.not_eq_true', Bool.and_eq_false_iff, decide_eq_false_iff_not] at hh ⊢
+        exact ⟨⟨⟨hh.1.1.1, hh.1.1.2⟩, hh.2.1⟩, hh.2.2⟩
+      rw [if_neg hc'] at hi
+      simp only [hc, ↓reduceIte, XR.le_fin]; simpa using hi
+
+theorem histQuantile_in_rank_bucket_full_holds : histQuantile_in_rank_bucket_full := by
+  intro interp h G C hcu q h0 h1
+  obtain ⟨pre, b, rem, S, c, N, e, _, _, _, _, _, _, v, ev, lo, hi⟩ := histQuantile_in_rank_bucket interp h G C q h0 h1
+  refine ⟨b, by rw [e]; simp, v, ev, ?_, ?_⟩
+  · simpa [hcu] using lo
+  · simpa [hcu] using hi
+
+/-- the linear interpolant is a `GoodInterp` -/
+def linInterp : XR → XR → XR → XR := fun l u f => XR.add l (XR.mul (XR.sub u l) f)
+
+example : GoodInterp linInterp := by
+  intro l u f1 f2 hlu h0 h12 h1
+  refine ⟨_, _, rfl, rfl, (interp_bounds hlu h0 (by grind)).1, interp_mono hlu h12, (interp_bounds hlu (by grind) h1).2⟩
+
+/-- a consistent histogram: negative bucket, zero bucket, an empty bucket and two positive buckets -/
+def exHist : NHist XR :=
+  { custom := false, count := .fin 6, sum := .fin 7, nNeg := 1, nPos := 3,
+    fwd := [⟨.fin (-2), .fin (-1), .fin 1⟩, ⟨.fin (-1/2), .fin (1/2), .fin 2⟩, ⟨.fin 1, .fin 2, .fin 0⟩, ⟨.fin 2, .fin 4, .fin 3⟩],
+    rev := [⟨.fin 2, .fin 4, .fin 3⟩, ⟨.fin 1, .fin 2, .fin 0⟩, ⟨.fin (-1/2), .fin (1/2), .fin 2⟩, ⟨.fin (-2), .fin (-1), .fin 1⟩] }
+
+example : ConsistentHist exHist := by
+  refine ⟨rfl, by simp [exHist], ⟨6, rfl, by decide, by decide +kernel⟩, ?_, ?_⟩
+  · intro b hb
+    simp [exHist] at hb
+    rcases hb with rfl | rfl | rfl | rfl
+    · exact ⟨_, _, _, rfl, rfl, rfl, by decide +kernel, by decide +kernel⟩
+    · exact ⟨_, _, _, rfl, rfl, rfl, by decide +kernel, by decide +kernel⟩
+    · exact ⟨_, _, _, rfl, rfl, rfl, by decide +kernel, by decide +kernel⟩
+    · exact ⟨_, _, _, rfl, rfl, rfl, by decide +kernel, by decide +kernel⟩
+  · simp only [exHist, List.pairwise_cons, List.mem_cons, List.not_mem_nil, or_false, false_imp_iff, forall_eq_or_imp,
+      forall_eq, List.Pairwise.nil, and_true, implies_true]
+    decide +kernel
+
+/-- Finding F-C32-1 at model level — the hypothesis `Sum ≠ NaN` of `ConsistentHist` is needed: with Sum = NaN the
+    NaN-detection loop overwrites `bucket` with the last bucket of the iteration; q = 1/4 ↦ 3 but q = 5/8 ↦ 5/2. -/
+def nanSumHist : NHist XR :=
+  { custom := true, count := .fin 4, sum := .nan, nNeg := 0, nPos := 3,
+    fwd := [⟨.fin 0, .fin 1, .fin 1⟩, ⟨.fin 1, .fin 2, .fin 1⟩, ⟨.fin 2, .fin 4, .fin 2⟩],
+    rev := [⟨.fin 2, .fin 4, .fin 2⟩, ⟨.fin 1, .fin 2, .fin 1⟩, ⟨.fin 0, .fin 1, .fin 1⟩] }
+
+theorem histQuantile_nan_sum_witness :
+    evalHQ linInterp (histogramQuantile (.fin (1/4)) nanSumHist) = .fin 3 ∧
+    evalHQ linInterp (histogramQuantile (.fin (5/8)) nanSumHist) = .fin (5/2) := by
+  constructor <;> decide +kernel
+
+/-- Finding F-C32-3 at model level — the hypothesis "all bounds finite" is needed: a custom-bucket histogram
+    whose only bucket is (-Inf, +Inf] gives NaN for q = 0 and +Inf for q = 1. -/
+def noFiniteBoundHist : NHist XR :=
+  { custom := true, count := .fin 1, sum := .fin 1, nNeg := 0, nPos := 1,
+    fwd := [⟨.ninf, .pinf, .fin 1⟩], rev := [⟨.ninf, .pinf, .fin 1⟩] }
+
+theorem histQuantile_no_finite_bound_witness :
+    evalHQ linInterp (histogramQuantile (.fin 0) noFiniteBoundHist) = .nan ∧
+    evalHQ linInterp (histogramQuantile (.fin 1) noFiniteBoundHist) = .pinf := by
+  constructor <;> decide +kernel
 
 /-- NOT PROVED YET: fraction ∈ [0,1] and monotone under interval nesting (`fb` = in-bucket fraction in [0,1], monotone). -/
 def fraction_in_unit_and_mono_full : Prop :=
